@@ -145,3 +145,65 @@ func (v *VerifSortedAsks) Keys() []string {
 	}
 	return out
 }
+
+// ---- preemption (queue, required node, quota change) ----
+
+// VerifSetPreemptAttemptFrequency sets the minimum time between two preemption attempts of one ask and
+// returns the previous value.
+func VerifSetPreemptAttemptFrequency(d time.Duration) time.Duration {
+	old := preemptAttemptFrequency
+	preemptAttemptFrequency = d
+	return old
+}
+
+// VerifTryPreemption runs the required node preemption and returns the filtered and sorted candidates.
+func (p *PreemptionContext) VerifTryPreemption() []*Allocation {
+	p.tryPreemption()
+	return p.allocations
+}
+
+// VerifQuotaPreemptionState reports whether quota preemption is running for the queue and whether a start time is set.
+func (sq *Queue) VerifQuotaPreemptionState() (bool, bool) {
+	sq.RLock()
+	defer sq.RUnlock()
+	return sq.isQuotaPreemptionRunning, !sq.quotaPreemptionStartTime.IsZero()
+}
+
+// VerifQuotaPreemptable computes, without changing anything, what quota preemption would plan for the queue:
+// the preemptable resource of the queue itself and its distribution over the leaf queues below it.
+func (sq *Queue) VerifQuotaPreemptable() (*resources.Resource, map[string]*resources.Resource) {
+	qpc := NewQuotaPreemptor(sq)
+	qpc.setPreemptableResources()
+	out := make(map[string]*resources.Resource)
+	if sq.IsLeafQueue() {
+		out[sq.GetQueuePath()] = qpc.preemptableResource
+		return qpc.preemptableResource, out
+	}
+	leafQueues := make(map[*Queue]*QuotaPreemptionContext)
+	getChildQueuesPreemptableResource(sq, qpc.preemptableResource, leafQueues)
+	for q, c := range leafQueues {
+		out[q.GetQueuePath()] = c.preemptableResource
+	}
+	return qpc.preemptableResource, out
+}
+
+// VerifTryQuotaPreemptionSync is TryQuotaPreemption with the preemption itself run on the calling goroutine
+// (the real entry point fires it in a goroutine of its own and returns).
+func (sq *Queue) VerifTryQuotaPreemptionSync() {
+	if sq.tryAcquirePreemption() {
+		func() {
+			defer sq.setQuotaPreemptionState(false)
+			preemptor := NewQuotaPreemptor(sq)
+			preemptor.tryPreemption()
+		}()
+		return
+	}
+	if sq.getQuotaPreemptionRunning() {
+		return
+	}
+	if !sq.IsLeafQueue() {
+		for _, child := range sq.GetCopyOfChildren() {
+			child.VerifTryQuotaPreemptionSync()
+		}
+	}
+}
